@@ -63,6 +63,8 @@ def run_readn(res, work, tier, seed):
                 for entry in ("arena", "encode_read", "enc_read_n", "dec_read_n"):
                     if entry != "arena" and prep >= 0:
                         continue
+                    if entry == "encode_read" and count > 5000 and max(script) > 5000:
+                        continue        # (megabytes of encoder output per run: the long-stream part covers encode_read at this size)
                     rid += 1
                     runs.append({"run": rid, "cfg": {"entry": entry, "script": script, "count": count,
                                                      "attempts": 10, "prep": prep}, "ops": []})
